@@ -32,9 +32,9 @@ OPS = {'and': R.v_and, 'or': R.v_or, 'xor': R.v_xor}
 
 def plan(tier, seed):
     specs = [{'kind': 'exh', 'k': k} for k in (1, 2, 3, 4)]
-    nrand = 4 if tier == 'quick' else 12
-    specs += [{'kind': 'rand', 'n': 60 if tier == 'quick' else 400, 'sub': i} for i in range(nrand)]
-    specs += [{'kind': 'out', 'n': 150 if tier == 'quick' else 1500}]
+    nrand = 8 if tier == 'quick' else 14
+    specs += [{'kind': 'rand', 'n': 400 if tier == 'quick' else 8000, 'sub': i} for i in range(nrand)]
+    specs += [{'kind': 'out', 'n': 1500 if tier == 'quick' else 30000}]
     return specs
 
 
